@@ -228,7 +228,7 @@ func TestVerifC09Snapshot(t *testing.T) {
 		abortAt := 0
 		if abort {
 			abortAt = rapid.SampledFrom([]int{1, 1, 2, 3, 5}).Draw(rt, "abortAt")
-			if abortAt == totalBlocks {
+			if vC09ExcludeSnapshotLastBlockAbort && abortAt == totalBlocks {
 				// known finding aborted-snapshot-left-tmp: DisableSnapshots after the last block was
 				// read makes WriteSnapshot return errSnapshotsDisabled without removing the file it
 				// completed (TestVerifC09KFSnapshotAbortLeavesTmp)
